@@ -88,6 +88,7 @@ def _case(draw):
     c['tvals'] = draw(st.lists(st.floats(300.0, 2500.0), min_size=4, max_size=4))
     # twopoint is an open known finding (class not discoverable on reload): kept rare
     c['gas2'] = draw(st.sampled_from(['twolayer', 'constant'] * 4 + ['twopoint']))
+    c['npoints'] = draw(st.sampled_from([2, 1, 3, 0]))
     c['contribs'] = draw(st.lists(st.sampled_from(['CIA', 'Rayleigh', 'SimpleClouds', 'FlatMie', 'LeeMie']), max_size=4, unique=True))
     c['vals'] = draw(st.lists(st.floats(0.1, 0.9), min_size=8, max_size=8))
     c['new_path'] = draw(st.booleans())
@@ -338,8 +339,14 @@ def check_model(out, c, tmp):
     nondefault = 0
     if c['temp'] == 'npoint':
         lo, hi = math.log10(W.pmin), math.log10(W.pmax)
-        W.temperature = NPoint(T_surface=tv[0], T_top=tv[1], temperature_points=[tv[2]], P_surface=W.pmax, P_top=W.pmin,
-                               pressure_points=[10.0 ** (lo + v[0] * (hi - lo))], smoothing_window=int(5 + 20 * v[1]))
+        # 0-3 interior nodes, pressures strictly decreasing from the surface
+        nint = c.get('npoints', 1)
+        fr = sorted([0.15 + 0.7 * x for x in (v[0], v[2], v[4])[:nint]], reverse=True)
+        fr = [f_ - 0.01 * i_ for i_, f_ in enumerate(fr)]
+        W.temperature = NPoint(T_surface=tv[0], T_top=tv[1], temperature_points=[tv[2], tv[3], 0.5 * (tv[0] + tv[3])][:nint],
+                               P_surface=W.pmax, P_top=W.pmin,
+                               pressure_points=[10.0 ** (lo + f_ * (hi - lo)) for f_ in fr], smoothing_window=int(5 + 20 * v[1]))
+        out.cls('npoint-interior:%d' % nint)
         nondefault += 1
     elif c['temp'] == 'guillot':
         W.temperature = Guillot2010(T_irr=tv[0], kappa_irr=0.01 * (0.5 + v[0]), kappa_v1=0.005 * (0.5 + v[1]),
